@@ -112,7 +112,17 @@ def _writeall_linear(ctx, func, cfgnode, call):
                 return None
             iv = [whole_or_suffix(d.value) for d in ins]
             ov = [whole_or_suffix(d.value) for d in outs]
-            if all(x is not None for x in iv + ov) and len(set(key(x) for x in iv)) == 1 and all(isinstance(x.slice.lower, ast.Constant) and x.slice.lower.value == 0 and varkey(x.value) == varkey(iv[0].value) for x in ov):
+            def starts_at_zero(x, d):
+                # `data` / `data[0:]`, or the same slice as inside the loop taken while the counters still have their initial values
+                if isinstance(x.slice.lower, ast.Constant) and x.slice.lower.value == 0:
+                    return True
+                if key(x) != key(iv[0]):
+                    return False
+                for nm in set(n_.id for n_ in ast.walk(x.slice.lower) if isinstance(n_, ast.Name)):
+                    if set(id(q) for q in df.reaching(d.node, nm)) != set(id(q) for q in df.reaching(head, nm) if q.node not in inside):
+                        return False
+                return True
+            if all(x is not None for x in iv + ov) and len(set(key(x) for x in iv)) == 1 and all(varkey(x.value) == varkey(iv[0].value) and starts_at_zero(x, d) for x, d in zip(ov, outs)):
                 staged = (P, [d.node for d in ins])
                 buf = iv[0]
     if not (isinstance(buf, ast.Subscript) and isinstance(buf.slice, ast.Slice) and buf.slice.step is None and buf.slice.lower is not None):
